@@ -350,6 +350,50 @@ func ruleALLOC2(c *Ctx) {
 			}
 			// every path from here to the end of the arm (fall-through or
 			// `continue`) must pass a decrement; `return` (error exit) is fine
+			// the variable the new object is stored in is not nil from here on:
+			// a later `if v != nil { … }` is its body on these paths
+			var holder types.Object
+			if len(stack) >= 2 {
+				switch par := stack[len(stack)-2].(type) {
+				case *ast.AssignStmt:
+					if len(par.Lhs) == 1 {
+						if id, ok := par.Lhs[0].(*ast.Ident); ok {
+							holder = p.TypesInfo.ObjectOf(id)
+						}
+					}
+				case *ast.UnaryExpr:
+					if len(stack) >= 3 {
+						if as, ok := stack[len(stack)-3].(*ast.AssignStmt); ok && len(as.Lhs) == 1 {
+							if id, ok := as.Lhs[0].(*ast.Ident); ok {
+								holder = p.TypesInfo.ObjectOf(id)
+							}
+						}
+					}
+				}
+			}
+			if holder != nil {
+				var cont2 []ast.Stmt
+				for _, st := range cont {
+					if is, ok := st.(*ast.IfStmt); ok && is.Init == nil {
+						if b, ok := ast.Unparen(is.Cond).(*ast.BinaryExpr); ok && (b.Op == token.NEQ || b.Op == token.EQL) && (isNilIdent(b.Y) || isNilIdent(b.X)) {
+							other := b.X
+							if isNilIdent(b.X) {
+								other = b.Y
+							}
+							if id, ok := ast.Unparen(other).(*ast.Ident); ok && p.TypesInfo.ObjectOf(id) == holder {
+								if b.Op == token.NEQ {
+									cont2 = append(cont2, is.Body.List...)
+								} else if eb, ok := is.Else.(*ast.BlockStmt); ok {
+									cont2 = append(cont2, eb.List...)
+								}
+								continue
+							}
+						}
+					}
+					cont2 = append(cont2, st)
+				}
+				cont = cont2
+			}
 			res := pathSeqRet(cont, isDec)
 			key := seq.next("create/" + w.ctxKey(n.Pos()) + "/" + kind)
 			c.check(res == pHit, key, n, "counted against the allocation budget before the instruction completes", "object created by "+kind+" reaches the end of the instruction on some path without being counted against the allocation budget")
